@@ -7,6 +7,7 @@ CONSTANTS
   MaxTests = 2
   MaxTags = 2
   MaxTime = 2
+  MaxRuns = 1
 CONSTRAINT ExportC
 CONSTRAINT FirstIsT1
 CONSTRAINT NotBoth
